@@ -485,10 +485,14 @@ def star_elements(v):
         for x in v.elts:
             if isinstance(x, ast.Call) and isinstance(x.func, ast.Name) and x.func.id == "_each" and len(x.args) == 2 and \
                     isinstance(x.args[1], ast.Constant):
-                m = _re.match(r"^\(?(\w+)\)? in (.+)$", str(x.args[1].value))
-                if not m:
+                m = _re.match(r"^(\w+) in (.+)$", str(x.args[1].value))
+                if m:
+                    out.append((x.args[0], f"{m.group(2)}[_{m.group(1)}]", m.group(2)))
+                    continue
+                m = _re.match(r"^(\(.+?\)) in (.+)$", str(x.args[1].value))
+                if not m or ";" in str(x.args[1].value):
                     return None
-                out.append((x.args[0], f"{m.group(2)}[_{m.group(1)}]", m.group(2)))
+                out.append((x.args[0], m.group(1), m.group(2)))
             else:
                 return None
         return out or None
